@@ -263,12 +263,16 @@ class GraphInitializers(collections.UserDict[str, "_core.Value"]):
 
         super().__init__(data)
 
-    def _set_graph(self, value: _core.Value) -> None:
-        """Set the graph for the value."""
+    def _check_can_own(self, value: _core.Value) -> None:
+        """Raise if the value cannot become an initializer of this graph. Changes nothing."""
         if value._graph is not None and value._graph is not self._graph:
             raise ValueError(
                 f"Value '{value}' is already an initializer of a different graph. Please remove the value from the previous graph first"
             )
+
+    def _set_graph(self, value: _core.Value) -> None:
+        """Set the graph for the value."""
+        self._check_can_own(value)
         value._is_initializer = True
         value._graph = self._graph
 
@@ -289,10 +293,7 @@ class GraphInitializers(collections.UserDict[str, "_core.Value"]):
             raise TypeError(f"Value name must be a string, not {type(key)}")
         if key == "":
             raise ValueError("Value name cannot be an empty string")
-        if not value.name:
-            logger.info("Value %s does not have a name, setting it to '%s'", value, key)
-            value.name = key
-        elif key != value.name:
+        if value.name and key != value.name:
             raise ValueError(
                 f"Key '{key}' does not match the name of the value '{value.name}'. Please use the value.name as the key."
             )
@@ -300,12 +301,16 @@ class GraphInitializers(collections.UserDict[str, "_core.Value"]):
             raise ValueError(
                 f"Value '{value}' is produced by a node and cannot be a graph initializer"
             )
+        # Perform all checks before renaming the value or releasing the previous holder
+        # of the key so that when there is an error nothing is modified
+        self._check_can_own(value)
+        if not value.name:
+            logger.info("Value %s does not have a name, setting it to '%s'", value, key)
+            value.name = key
         if key in self.data:
             # If the key already exists, unset the old value
             old_value = self.data[key]
             self._maybe_unset_graph(old_value)
-        # Must call _set_graph before super().__setitem__ so that when there is an error,
-        # the dictionary is not modified
         self._set_graph(value)
         super().__setitem__(key, value)
 
